@@ -224,6 +224,35 @@ fn poly_oracle(c: &PolyCase) -> Verdict {
     }
     let mut back = f.clone(); pm::intt_p(&mut back, n, &ts);
     check!(back == c.data, "intt_p(ntt_p(a)) != a");
+    // layout of the multi-polynomial (_ps) and multi-modulus (_p) wrappers: pc polynomials of k components each, pc chosen
+    // independently of k; every wrapper must equal the single-component routine applied to component (i, j)
+    {
+        let pc = 1 + (c.bad_modulus % 3) as usize; let d = n * k;
+        let shift = (c.bad_modulus >> 8) as usize % n; let mono = 1 + (c.bad_modulus >> 20) % (c.primes.iter().min().unwrap() - 1).max(1);
+        let polys: Vec<u64> = (0..pc).flat_map(|i| c.data.iter().enumerate().map(move |(x, v)| (*v, x, i))).map(|(v, x, i)| (v + i as u64 * 7) % c.primes[x / n]).collect();
+        let comp = |v: &[u64], i: usize, j: usize| v[i * d + j * n..i * d + (j + 1) * n].to_vec();
+        let mut fwd = polys.clone(); pm::ntt_ps(&mut fwd, pc, n, &ts);
+        let mut dy = vec![0u64; pc * d]; pm::dyadic_product_ps(&fwd, &fwd, pc, n, &moduli, &mut dy);
+        let mut dyi = fwd.clone(); pm::dyadic_product_inplace_ps(&mut dyi, &fwd, pc, n, &moduli);
+        let mut sh = vec![0u64; pc * d]; pm::negacyclic_shift_ps(&polys, shift, pc, n, &moduli, &mut sh);
+        let mut mo = vec![0u64; pc * d]; pm::negacyclic_multiply_mononomial_ps(&polys, mono, shift, pc, n, &moduli, &mut mo);
+        let mut moi = polys.clone(); pm::negacyclic_multiply_mononomial_inplace_ps(&mut moi, mono, shift, pc, n, &moduli);
+        let mut back2 = fwd.clone(); pm::intt_ps(&mut back2, pc, n, &ts);
+        check!(back2 == polys, "intt_ps(ntt_ps(a)) != a for {pc} polynomials over {k} moduli");
+        for i in 0..pc { for j in 0..k {
+            let a = comp(&polys, i, j); let p = c.primes[j];
+            let mut fa = a.clone(); ts[j].ntt_negacyclic_harvey(&mut fa);
+            check!(comp(&fwd, i, j) == fa, "ntt_ps: polynomial {i} component {j} of {pc}x{k} differs from the single transform");
+            let want: Vec<u64> = fa.iter().map(|x| rm::mulmod(*x, *x, p)).collect();
+            check!(comp(&dy, i, j) == want, "dyadic_product_ps: polynomial {i} component {j} of {pc} polynomials x {k} moduli is not the pointwise product");
+            check!(comp(&dyi, i, j) == want, "dyadic_product_inplace_ps: polynomial {i} component {j} of {pc} polynomials x {k} moduli is not the pointwise product");
+            let ws = rm::negacyclic_shift(&a, shift, p);
+            check!(comp(&sh, i, j) == ws, "negacyclic_shift_ps by {shift}: polynomial {i} component {j} of {pc}x{k}");
+            let wm: Vec<u64> = ws.iter().map(|x| rm::mulmod(*x, mono % p, p)).collect();
+            check!(comp(&mo, i, j) == wm, "negacyclic_multiply_mononomial_ps ({mono} X^{shift}): polynomial {i} component {j} of {pc}x{k}");
+            check!(comp(&moi, i, j) == wm, "negacyclic_multiply_mononomial_inplace_ps ({mono} X^{shift}): polynomial {i} component {j} of {pc}x{k}");
+        } }
+    }
     // a modulus for which no primitive 2N-th root exists must be rejected, not panic
     let bad = c.bad_modulus;
     let suitable = rm::is_prime(bad) && (bad - 1) % (2 * n as u64) == 0;
@@ -235,7 +264,7 @@ fn poly_oracle(c: &PolyCase) -> Verdict {
             if !suitable && ok && rm::is_prime(bad) { return fail(format!("NTTTables::new accepted prime {bad} not congruent to 1 mod 2N")); }
         }
     }
-    Verdict::Pass(Info::new(k >= 2).evals(4).label(format!("k={k}")))
+    Verdict::Pass(Info::new(k >= 2).evals(4).label(format!("k={k}")).label_if(1 + (c.bad_modulus % 3) as usize != k, "polynomial count differs from modulus count"))
 }
 
 pub fn def() -> PropertyDef {
